@@ -764,6 +764,7 @@ func runC12(w *World) *Result {
 	c12EOFNotEaten(w, r)
 	c12ArmNeedsNewline(w, r)
 	c12NilStatement(w, r)
+	BlockEndCallbackRule(w, r, "R-C12-nl")
 	c12EOF(w, r)
 	SignRule(w, r, "R-C12-sign")
 	return r
@@ -1225,142 +1226,10 @@ func leadsToErrorReturn(b *ssa.BasicBlock, depth int) bool {
 // (strconv.Unquote) differs from the source text whenever an escape is present:
 // "a\nb" contains a newline only after decoding.
 func posSources(w *World, lf *LexFacts, info *types.Info, loop *ast.ForStmt, arms []lexArm, rowObj types.Object, r *Result) {
-	fn := lf.Tokenize
-	// all assignments per object in the function
-	type def struct {
-		rhs ast.Expr
-		acc bool
-	}
-	defs := map[types.Object][]def{}
-	objOf := func(e ast.Expr) types.Object {
-		id, ok := e.(*ast.Ident)
-		if !ok {
-			return nil
-		}
-		if o := info.Defs[id]; o != nil {
-			return o
-		}
-		return info.Uses[id]
-	}
-	ast.Inspect(fn, func(n ast.Node) bool {
-		switch s := n.(type) {
-		case *ast.AssignStmt:
-			for i, l := range s.Lhs {
-				o := objOf(l)
-				if o == nil {
-					continue
-				}
-				var rhs ast.Expr
-				if len(s.Rhs) == len(s.Lhs) {
-					rhs = s.Rhs[i]
-				} else if len(s.Rhs) == 1 {
-					rhs = s.Rhs[0]
-				}
-				defs[o] = append(defs[o], def{rhs, s.Tok == token.ADD_ASSIGN && isString(o.Type())})
-			}
-		case *ast.ValueSpec:
-			for i, nm := range s.Names {
-				if o := info.Defs[nm]; o != nil && i < len(s.Values) {
-					defs[o] = append(defs[o], def{s.Values[i], false})
-				}
-			}
-		}
-		return true
-	})
-	var params = map[types.Object]bool{}
-	for _, f := range fn.Type.Params.List {
-		for _, nm := range f.Names {
-			params[info.Defs[nm]] = true
-		}
-	}
-	okCalls := map[string]bool{"strings.Split": true, "strings.Count": true, "strings.Index": true, "strings.LastIndex": true, "strings.ReplaceAll": true, "strings.SplitN": true, "strings.TrimRight": true, "strings.TrimLeft": true, "strings.HasPrefix": true, "strings.HasSuffix": true}
-	var check func(e ast.Expr, seen map[types.Object]bool, depth int) string
-	check = func(e ast.Expr, seen map[types.Object]bool, depth int) string {
-		if e == nil || depth > 12 {
-			return ""
-		}
-		if tv, ok := info.Types[e]; ok && tv.Value != nil {
-			return ""
-		}
-		switch x := e.(type) {
-		case *ast.ParenExpr:
-			return check(x.X, seen, depth+1)
-		case *ast.BinaryExpr:
-			if m := check(x.X, seen, depth+1); m != "" {
-				return m
-			}
-			return check(x.Y, seen, depth+1)
-		case *ast.UnaryExpr:
-			return check(x.X, seen, depth+1)
-		case *ast.IndexExpr:
-			return check(x.X, seen, depth+1) // the index selects, it does not contribute text
-		case *ast.SliceExpr:
-			return check(x.X, seen, depth+1)
-		case *ast.Ident:
-			o := objOf(x)
-			if o == nil || params[o] || seen[o] {
-				return ""
-			}
-			if _, isVar := o.(*types.Var); !isVar {
-				return ""
-			}
-			seen[o] = true
-			ds := defs[o]
-			if !isString(o.Type()) {
-				if b, ok := o.Type().Underlying().(*types.Basic); ok && b.Info()&types.IsInteger != 0 {
-					// integer positions (i, ogI, column …): follow only variables defined inside the loop
-					for _, d := range ds {
-						if d.rhs != nil && within(loop.Body, d.rhs.Pos()) {
-							if m := check(d.rhs, seen, depth+1); m != "" {
-								return m
-							}
-						}
-					}
-					return ""
-				}
-			}
-			for _, d := range ds {
-				if d.acc {
-					return fmt.Sprintf("%s, which is accumulated piecewise (the decoded value of the token)", x.Name)
-				}
-				if m := check(d.rhs, seen, depth+1); m != "" {
-					return m
-				}
-			}
-			return ""
-		case *ast.CallExpr:
-			if id, ok := x.Fun.(*ast.Ident); ok && (id.Name == "len" || id.Name == "string") {
-				if len(x.Args) == 1 {
-					return check(x.Args[0], seen, depth+1)
-				}
-			}
-			if o := calleeObj(info, x); o != nil && o.Pkg() != nil {
-				full := o.Pkg().Name() + "." + o.Name()
-				if okCalls[full] {
-					for _, a := range x.Args {
-						if m := check(a, seen, depth+1); m != "" {
-							return m
-						}
-					}
-					return ""
-				}
-				// regexp probes: result text is a piece of the argument
-				if f, ok := o.(*types.Func); ok {
-					if sig, ok := f.Type().(*types.Signature); ok && sig.Recv() != nil && strings.HasSuffix(sig.Recv().Type().String(), "regexp.Regexp") {
-						for _, a := range x.Args {
-							if m := check(a, seen, depth+1); m != "" {
-								return m
-							}
-						}
-						return ""
-					}
-				}
-				return fmt.Sprintf("the result of %s (not a piece of the source text)", full)
-			}
-			return "the result of an unresolved call"
-		}
-		return ""
-	}
+	sc := newSrcChecker(w, info, lf.Tokenize, loop.Body, 0)
+	defs := sc.defs
+	objOf := sc.objOf
+	check := func(e ast.Expr, seen map[types.Object]bool, depth int) string { return sc.check(e, seen, depth, -1) }
 	for i, arm := range arms {
 		n := 0
 		assignsRow := false
@@ -2590,4 +2459,250 @@ func c12NilStatement(w *World, r *Result) {
 	if n == 0 {
 		r.Triv(rule, "nl:nil-statement:none", "-", "no statement value that may be nil is recorded")
 	}
+}
+
+// srcChecker decides whether a value of a lexer function derives from the source text (the
+// source parameter, slices of it, results of probes applied to it, strings.Split/Count/Index
+// and len of those) or from something else (a decoded value, a decoder's result). Product
+// functions of the lexer package are followed into: a position returned by a scanning helper
+// is judged by the helper's own assignments.
+type srcDef struct {
+	rhs ast.Expr
+	acc bool
+	idx int // result index when rhs is one call assigned to several variables, else -1
+}
+
+type srcChecker struct {
+	w        *World
+	info     *types.Info
+	fn       *ast.FuncDecl
+	defs     map[types.Object][]srcDef
+	params   map[types.Object]bool
+	intScope ast.Node // integers: follow only assignments inside this node (nil: all of fn)
+	nest     int
+}
+
+func newSrcChecker(w *World, info *types.Info, fn *ast.FuncDecl, intScope ast.Node, nest int) *srcChecker {
+	sc := &srcChecker{w: w, info: info, fn: fn, defs: map[types.Object][]srcDef{}, params: map[types.Object]bool{}, intScope: intScope, nest: nest}
+	ast.Inspect(fn, func(n ast.Node) bool {
+		switch s := n.(type) {
+		case *ast.AssignStmt:
+			for i, l := range s.Lhs {
+				o := sc.objOf(l)
+				if o == nil {
+					continue
+				}
+				var rhs ast.Expr
+				idx := -1
+				if len(s.Rhs) == len(s.Lhs) {
+					rhs = s.Rhs[i]
+				} else if len(s.Rhs) == 1 {
+					rhs = s.Rhs[0]
+					idx = i
+				}
+				sc.defs[o] = append(sc.defs[o], srcDef{rhs, s.Tok == token.ADD_ASSIGN && isString(o.Type()), idx})
+			}
+		case *ast.ValueSpec:
+			for i, nm := range s.Names {
+				if o := info.Defs[nm]; o != nil {
+					if i < len(s.Values) && len(s.Values) == len(s.Names) {
+						sc.defs[o] = append(sc.defs[o], srcDef{s.Values[i], false, -1})
+					} else if len(s.Values) == 1 {
+						sc.defs[o] = append(sc.defs[o], srcDef{s.Values[0], false, i})
+					}
+				}
+			}
+		}
+		return true
+	})
+	if fn.Type.Params != nil {
+		for _, f := range fn.Type.Params.List {
+			for _, nm := range f.Names {
+				sc.params[info.Defs[nm]] = true
+			}
+		}
+	}
+	return sc
+}
+
+func (sc *srcChecker) objOf(e ast.Expr) types.Object {
+	id, ok := e.(*ast.Ident)
+	if !ok {
+		return nil
+	}
+	if o := sc.info.Defs[id]; o != nil {
+		return o
+	}
+	return sc.info.Uses[id]
+}
+
+var srcOkCalls = map[string]bool{"strings.Split": true, "strings.Count": true, "strings.Index": true, "strings.LastIndex": true, "strings.ReplaceAll": true, "strings.SplitN": true, "strings.TrimRight": true, "strings.TrimLeft": true, "strings.HasPrefix": true, "strings.HasSuffix": true}
+
+// check returns "" when e derives from the source text, otherwise what it derives from.
+// want is the result index when e is a call that yields several values.
+func (sc *srcChecker) check(e ast.Expr, seen map[types.Object]bool, depth int, want int) string {
+	info := sc.info
+	if e == nil || depth > 12 {
+		return ""
+	}
+	if tv, ok := info.Types[e]; ok && tv.Value != nil {
+		return ""
+	}
+	switch x := e.(type) {
+	case *ast.ParenExpr:
+		return sc.check(x.X, seen, depth+1, want)
+	case *ast.BinaryExpr:
+		if m := sc.check(x.X, seen, depth+1, -1); m != "" {
+			return m
+		}
+		return sc.check(x.Y, seen, depth+1, -1)
+	case *ast.UnaryExpr:
+		return sc.check(x.X, seen, depth+1, -1)
+	case *ast.IndexExpr:
+		return sc.check(x.X, seen, depth+1, -1) // the index selects, it does not contribute text
+	case *ast.SliceExpr:
+		return sc.check(x.X, seen, depth+1, -1)
+	case *ast.Ident:
+		o := sc.objOf(x)
+		if o == nil || sc.params[o] || seen[o] {
+			return ""
+		}
+		if _, isVar := o.(*types.Var); !isVar {
+			return ""
+		}
+		seen[o] = true
+		ds := sc.defs[o]
+		if !isString(o.Type()) {
+			if b, ok := o.Type().Underlying().(*types.Basic); ok && b.Info()&types.IsInteger != 0 {
+				// integer positions (i, ogI, column …): follow only assignments inside the scanning loop
+				for _, d := range ds {
+					if d.rhs != nil && (sc.intScope == nil || within(sc.intScope, d.rhs.Pos())) {
+						if m := sc.check(d.rhs, seen, depth+1, d.idx); m != "" {
+							return m
+						}
+					}
+				}
+				return ""
+			}
+		}
+		for _, d := range ds {
+			if d.acc {
+				return fmt.Sprintf("%s, which is accumulated piecewise (the decoded value of the token)", x.Name)
+			}
+			if m := sc.check(d.rhs, seen, depth+1, d.idx); m != "" {
+				return m
+			}
+		}
+		return ""
+	case *ast.CallExpr:
+		if id, ok := x.Fun.(*ast.Ident); ok && (id.Name == "len" || id.Name == "string" || id.Name == "min" || id.Name == "max") {
+			if _, isBuiltin := info.Uses[id].(*types.Builtin); isBuiltin || id.Name == "string" {
+				for _, a := range x.Args {
+					if m := sc.check(a, seen, depth+1, -1); m != "" {
+						return m
+					}
+				}
+				return ""
+			}
+		}
+		if o := calleeObj(info, x); o != nil && o.Pkg() != nil {
+			full := o.Pkg().Name() + "." + o.Name()
+			if srcOkCalls[full] {
+				for _, a := range x.Args {
+					if m := sc.check(a, seen, depth+1, -1); m != "" {
+						return m
+					}
+				}
+				return ""
+			}
+			// regexp probes: result text is a piece of the argument
+			if f, ok := o.(*types.Func); ok {
+				if sig, ok := f.Type().(*types.Signature); ok && sig.Recv() != nil && strings.HasSuffix(sig.Recv().Type().String(), "regexp.Regexp") {
+					for _, a := range x.Args {
+						if m := sc.check(a, seen, depth+1, -1); m != "" {
+							return m
+						}
+					}
+					return ""
+				}
+			}
+			// a function of the lexer itself: its arguments, then what it returns
+			if decl := sc.declOf(o); decl != nil && decl.Body != nil && sc.nest < 3 {
+				for _, a := range x.Args {
+					if m := sc.check(a, seen, depth+1, -1); m != "" {
+						return m
+					}
+				}
+				callee := newSrcChecker(sc.w, info, decl, nil, sc.nest+1)
+				if m := callee.checkResult(want); m != "" {
+					return m + " (in " + o.Name() + ")"
+				}
+				return ""
+			}
+			return fmt.Sprintf("the result of %s (not a piece of the source text)", full)
+		}
+		return "the result of an unresolved call"
+	}
+	return ""
+}
+
+// declOf: the declaration of a function of the lexer package.
+func (sc *srcChecker) declOf(o types.Object) *ast.FuncDecl {
+	f, ok := o.(*types.Func)
+	if !ok {
+		return nil
+	}
+	pkg := sc.w.Pkgs["lexer"]
+	if pkg == nil || f.Pkg() != pkg.Types {
+		return nil
+	}
+	for _, file := range pkg.Syntax {
+		for _, d := range file.Decls {
+			if fd, ok := d.(*ast.FuncDecl); ok && pkg.TypesInfo.Defs[fd.Name] == o {
+				return fd
+			}
+		}
+	}
+	return nil
+}
+
+// checkResult: result idx (0 when idx < 0) of every return statement of the function.
+func (sc *srcChecker) checkResult(idx int) string {
+	if idx < 0 {
+		idx = 0
+	}
+	msg := ""
+	ast.Inspect(sc.fn.Body, func(n ast.Node) bool {
+		if msg != "" {
+			return false
+		}
+		if _, ok := n.(*ast.FuncLit); ok {
+			return false
+		}
+		ret, ok := n.(*ast.ReturnStmt)
+		if !ok {
+			return true
+		}
+		switch {
+		case len(ret.Results) == 0:
+			// named results
+			k := 0
+			if sc.fn.Type.Results != nil {
+				for _, f := range sc.fn.Type.Results.List {
+					for _, nm := range f.Names {
+						if k == idx {
+							msg = sc.check(nm, map[types.Object]bool{}, 0, -1)
+						}
+						k++
+					}
+				}
+			}
+		case len(ret.Results) == 1 && idx > 0:
+			msg = sc.check(ret.Results[0], map[types.Object]bool{}, 0, idx)
+		case idx < len(ret.Results):
+			msg = sc.check(ret.Results[idx], map[types.Object]bool{}, 0, -1)
+		}
+		return true
+	})
+	return msg
 }
